@@ -53,7 +53,7 @@ def run_marg(shard, ctx):
     tier, seed = shard["tier"], shard["seed"]
     kind, D = shard["kind"], shard["D"]
     diag = "Diag" in kind
-    vis = [0, 100] if tier == "quick" else [0, 1, 2, 100, 101]
+    vis = [0, 100, objs.HARD] if tier == "quick" else [0, 1, 2, 100, 101, objs.HARD]
     for R in BOUNDS[tier]["R"]:
         for vi in vis:
             tag = ("c05", kind, D, R)
@@ -84,7 +84,7 @@ def marg_on(ctx, shard, tier, p, ident, kind, D, R, vi, mu, Sig, prep):
                 if vi == 0 and R == 2 and dims == list(reversed(range(D))):
                     ctx.sample(dict(shard=shard["id"], op="get_marginal", dims=dims, Sigma=Sig, mu=mu, x=xs))
                 with ctx.guard("get_marginal.call", facts) as g:
-                    m = p.get_marginal(jnp.array(dims))
+                    m = p.get_marginal(objs.idx(dims, len(dims) + sum(dims)))
                     got = np.asarray(m.evaluate_ln(J(xs)))
                 if not g.ok:
                     continue
